@@ -1,19 +1,19 @@
 SPECIFICATION Spec
 CONSTANTS
-  N = 4
+  N = 2
   Kinds <- K_callables
-  TKs <- TK_core
+  TKs <- TK_chain
   AllowList = FALSE
   AllowNSkip = FALSE
   AllowVSkip = FALSE
   AllowReturn = TRUE
   AllowMoved = FALSE
   MaxFunctions = 1
-  Stepwise = FALSE
-  COrder = TRUE
-  Orders <- Id4
-  KnownShapes <- Known_c
+  Stepwise = TRUE
+  COrder = FALSE
+  Orders <- Id2
+  KnownShapes <- W_alias_cb
   ExportViol = 0
   ExportOk = 0
-INVARIANT NoUnknownViolation
+INVARIANT NoWitness
 CHECK_DEADLOCK FALSE
